@@ -603,6 +603,13 @@ impl WorldC {
                                 let o = (s + 1 + ctx.ch.index(self.servers.len() - 1)) % self.servers.len();
                                 let cl = self.servers[s].server.clone();
                                 let m = self.servers[s].model.clone();
+                                if ctx.ch.chance(1, 3) {
+                                    // the ORIGINAL goes away and a copy of the copy takes its place: copies are
+                                    // values and outlive what they were copied from
+                                    let orig = std::mem::replace(&mut self.servers[s].server, cl.clone());
+                                    drop(orig);
+                                    ctx.stats.probe("original_dropped_clones_live_on");
+                                }
                                 self.servers[o].server = cl;
                                 self.servers[o].model = m;
                                 ev!(ctx, "t={} server {} becomes a clone of server {}", self.sim.now, o, s);
